@@ -109,6 +109,18 @@ def check_bank(mtjs, order=None):
             mts = [extract(t) for t in live]
             for t in live:
                 grammar.extract(t, g, lex)
+        elif order == 'two-grammars':
+            # a one-pass split: the trees go alternately into this grammar and into a second one (which also gets
+            # every tree of this one a second time, so that the same rules occur on both sides of every switch)
+            g_b, lex_b = {}, {}
+            for mt in mts:
+                grammar.extract(build(mt), g, lex)
+                grammar.extract(build(mt), g_b, lex_b)
+                grammar.extract(build(mt), g_b, lex_b)
+            eg_b, _ = lcfrs.ref_extract(mts + mts)
+            if norm(g_b) != eg_b:
+                bad('grammar-mismatch', 'second grammar of a one-pass split: recorded %r, expected %r'
+                    % ({f: l for f, l in norm(g_b).items() if eg_b.get(f) != l}, {f: l for f, l in eg_b.items() if norm(g_b).get(f) != l}))
         elif order == 'snapshot':
             # a grammar that is used while it still grows: after every tree a binarized snapshot is taken
             # (deterministic and markovized; the results are dropped), then extraction goes on
@@ -200,7 +212,7 @@ def run_chunk(chunk):
         if chunk['kind'] == 'single':
             for sh, k in sweep.iter_shapes(chunk):
                 for mt in label_variants(sh, chunk['dev']):
-                    for order in (None, 'rev', 'export+raise', 'written', 'snapshot') + (('collapse',) if k else ()):
+                    for order in (None, 'rev', 'export+raise', 'written', 'snapshot', 'two-grammars') + (('collapse',) if k else ()):
                         vs, nt = check_bank([mt.to_json()], order)
                         take(vs, nt, (mt.key(), order))
                 res.sample({'treebank': [model.mt_str(mt.root, mt.toks)]})
